@@ -323,6 +323,16 @@ def run(tier, seed):
     os.makedirs(mmdir, exist_ok=True)
     items = [{'t': 'shipped', 'name': m} for m, _ in SHIPPED]
     items += [{'t': 'gen', 'seed': seed * 100000 + g} for g in range(12 if quick else 80)]
+    # modules with their OWN notation tables (none / other names and formats / partial) sharing stack terms with Propositional
+    for g in range(3 if quick else 12):
+        for mode in ('none', 'own', 'partial'):
+            items.append({'t': 'gen', 'seed': seed * 1000 + g, 'notations': mode})
+    # serialise -> mutate -> serialise on one object vs the untouched object twice vs a fresh object: same key, so all
+    # observations of the three modes must agree (output is a function of the content at serialisation time)
+    for g in range(3 if quick else 15):
+        n1 = 1 + g % 3
+        for mode in ('fresh', 'incremental', 'twice'):
+            items.append({'t': 'incr', 'seed': seed * 1000 + g, 'n1': n1, 'n2': n1 + 3 + g % 4, 'mode': mode})
     bench = os.path.join(C.REPO, 'generation', 'mm-benchmarks')
     items += [{'t': 'mm', 'path': os.path.join(bench, 'impreflex-compressed-goal.mm'), 'target': 'goal'},
               {'t': 'mm', 'path': os.path.join(bench, 'impreflex-compressed.mm'), 'target': 'imp-reflexivity'}]
@@ -361,14 +371,19 @@ def run(tier, seed):
     items.append({'t': 'mm', 'path': zw, 'target': 'goal', 'mandatory': 1})
 
     def key(it):
-        return json.dumps({k: v for k, v in it.items() if k not in ('mandatory', 'ambiguous')}, sort_keys=True)
+        return json.dumps({k: v for k, v in it.items() if k not in ('mandatory', 'ambiguous', 'mode')}, sort_keys=True)
 
     # (a) per hash seed ONE process that serialises every item twice, in two different orders
     def seq_for(hs):
         r = C.rng_for(seed, f'{CID}:order:{hs}')
         a, b = items[:], items[:]
-        r.shuffle(a)
-        r.shuffle(b)
+        if hs == seeds[0]:
+            b.reverse()                 # everything after the shipped modules, then everything before them
+        elif len(seeds) > 1 and hs == seeds[1]:
+            a.reverse()                 # the generated modules first (cold process), the shipped ones last
+        else:
+            r.shuffle(a)
+            r.shuffle(b)
         return a + b
 
     seqs = {hs: seq_for(hs) for hs in seeds}
@@ -418,15 +433,21 @@ def run(tier, seed):
     obs = {}     # key -> list of (where, result)
     for hs in seeds:
         for pos, (it, r) in enumerate(zip(seqs[hs], res_seq[hs])):
-            obs.setdefault(key(it), []).append((f'seed={hs} position={pos} (one process, after {pos} other serialisations)', r))
+            md = f' mode={it["mode"]}' if 'mode' in it else ''
+            obs.setdefault(key(it), []).append((f'seed={hs} position={pos}{md} (one process, after {pos} other serialisations)', r))
     for (it, hs), r in zip(fresh_jobs, res_fresh):
-        obs.setdefault(key(it), []).append((f'seed={hs} fresh process', r))
+        obs.setdefault(key(it), []).append((f'seed={hs} fresh process' + (f' mode={it["mode"]}' if 'mode' in it else ''), r))
     nobs = 0
+    done_keys = set()
     for it in items + heavy:
+        if key(it) in done_keys:
+            continue
+        done_keys.add(key(it))
         ol = obs[key(it)]
         ref_where, ref = ol[0]
         kind = it['t'] + (f':mandatory={it["mandatory"]}' if 'mandatory' in it else '') + \
-            (f':ambiguous-variable-floats={it["ambiguous"]}' if 'ambiguous' in it else '')
+            (f':ambiguous-variable-floats={it["ambiguous"]}' if 'ambiguous' in it else '') + \
+            (f':own-notation-table={it["notations"]}' if 'notations' in it else '') + (':serialise-mutate-serialise' if it['t'] == 'incr' else '')
         for where, r in ol:
             nobs += 1
             R.case(('run', key(it), where), True, 'run:' + kind)
@@ -445,7 +466,9 @@ def run(tier, seed):
         if bad:
             w, r = bad[0]
             diff = [k for k in FILES6 + ['err'] if r.get(k) != ref.get(k)]
-            what = 'shipped:' + it['name'] if it['t'] == 'shipped' else ('mm-ambiguous-variables' if 'ambiguous' in it else it['t'])
+            what = 'shipped:' + it['name'] if it['t'] == 'shipped' else ('mm-ambiguous-variables' if 'ambiguous' in it else
+                                                                        'module-with-own-notation-table' if 'notations' in it else
+                                                                        'serialise-mutate-serialise' if it['t'] == 'incr' else it['t'])
             findings.append((f'nondeterministic-output:{what}:{",".join(d.split("-")[0] if d != "err" else "outcome" for d in diff[:1])}',
                              f'{key(it)}: output differs between [{ref_where}] and [{w}] in {diff}',
                              {'item': it, 'a': {'where': ref_where, 'result': ref}, 'b': {'where': w, 'result': r},
@@ -505,9 +528,10 @@ def replay(path):
         it = dict(it, path=os.path.join(scratch, 'replay.mm'))
         open(it['path'], 'w').write(rp['mm_source'])
     it = {k: v for k, v in it.items() if k not in ('mandatory', 'ambiguous')}
+    modes = ['fresh', 'incremental', 'twice'] if it['t'] == 'incr' else [None]
     seen = set()
     for hs in range(8):
-        r = run_runner([it, it], hs, os.path.join(scratch, f'o{hs}'))
+        r = run_runner([dict(it, mode=m) for m in modes] if modes[0] else [it, it], hs, os.path.join(scratch, f'o{hs}'))
         print(f'PYTHONHASHSEED={hs}:', json.dumps(r)[:400])
         seen |= {json.dumps({k: x.get(k) for k in FILES6 + ['err']}, sort_keys=True) for x in r}
     print('distinct outcomes:', len(seen))
